@@ -309,26 +309,26 @@ Fixpoint tbl_body (rules : list (name * cond * list action)) : ubody :=
         if Nat.eqb n s && cond_holds c stm init then acts else tbl_body r s tm stm init
     end.
 
-(* what the harness records: a state function only sees the parameters its
-   signature names, the others are None *)
+(* what the harness records: the invocations of the state functions (a function
+   only sees the parameters its signature names, the others are None) and the
+   exceptions that escape.  How the code moves from state to state internally
+   (whether it calls self.next_state() at an expiry, how done() is written) is
+   not specified by C15: EvEnter events are not compared; every entry shows
+   in the calls that follow it. *)
 Inductive obs :=
 | OCall (s : name) (tm stm : option Z) (init : option bool)
-| OEnter (o : option name)
 | OErr (e : err).
+
+Definition visible (e : event) : bool := match e with EvEnter _ => false | _ => true end.
 
 Definition opt_agrees {A} (eqb : A -> A -> bool) (o : option A) (v : A) : bool :=
   match o with Some x => eqb x v | None => true end.
-Definition oname_eqb (a b : option name) : bool :=
-  match a, b with Some x, Some y => Nat.eqb x y | None, None => true | _, _ => false end.
-Definition err_eqb (a b : err) : bool :=
-  match a, b with ErrNotEnabled, ErrNotEnabled => true | ErrAttr, ErrAttr => true | _, _ => false end.
 Definition ev_matches (e : event) (o : obs) : bool :=
   match e, o with
   | EvCall s tm stm init, OCall s' otm ostm oinit =>
       Nat.eqb s s' && opt_agrees Z.eqb otm tm && opt_agrees Z.eqb ostm stm
       && opt_agrees Bool.eqb oinit init
-  | EvEnter a, OEnter b => oname_eqb a b
-  | EvErr a, OErr b => err_eqb a b
+  | EvErr _, OErr _ => true   (* C15 does not say which exception misuse raises *)
   | _, _ => false
   end.
 Fixpoint trace_matches (tr : list event) (os : list obs) : bool :=
@@ -340,7 +340,7 @@ Fixpoint trace_matches (tr : list event) (os : list obs) : bool :=
 
 Definition case := (shape * list op * list obs)%type.
 Definition case_ok (c : case) : bool :=
-  let '(sh, h, os) := c in trace_matches (trace sh h) os.
+  let '(sh, h, os) := c in trace_matches (filter visible (trace sh h)) os.
 Fixpoint bad (i : nat) (l : list case) : list nat :=
   match l with
   | [] => []
